@@ -18,6 +18,10 @@ def hBase? : Sexp → Option Base
   | list [atom "b", n, t, list sh, list dims, list data] => do
     pure { name := ← hStr? n, ty := ← hStr? t, shape := ← sh.mapM asNat?, dims := ← dims.mapM hStr?,
            data := ← data.mapM hVal?, kind := .arr }
+  -- a String array the source holds as bytes (numpy dtype S)
+  | list [atom "b", n, t, list sh, list dims, list data, atom "S"] => do
+    pure { name := ← hStr? n, ty := ← hStr? t, shape := ← sh.mapM asNat?, dims := ← dims.mapM hStr?,
+           data := ← data.mapM hVal?, kind := .arr, srep := .bytes }
   | _ => none
 
 def hMember? : Sexp → Option Member
